@@ -38,13 +38,33 @@ def run(repo: Repo, rep: Report, tier: str) -> None:
     if ns is None:
         raise AnalysisError("anchor vanished: NameSanitizer")
     n_fn = 0
+    # who-calls over the whole package (not only the live set: a reference from any module arms the rule)
+    refs: dict[str, list[str]] = {f: [] for f in SANITIZERS}
+    for mname, m in repo.modules.items():
+        for n in ast.walk(m.tree):
+            if isinstance(n, ast.Attribute) and n.attr in refs:
+                refs[n.attr].append(f"{m.relpath}:{n.lineno}")
+            elif isinstance(n, ast.Name) and n.id in refs and isinstance(n.ctx, ast.Load):
+                refs[n.id].append(f"{m.relpath}:{n.lineno}")
+            elif isinstance(n, ast.Constant) and isinstance(n.value, str) and n.value in refs and isinstance(parent(n), ast.Call):
+                refs[n.value].append(f"{m.relpath}:{n.lineno}")  # getattr(NameSanitizer, "sanitize_x")
     for fname, role in SANITIZERS.items():
         fn = ns.methods.get(fname)
         if fn is None:
             raise AnalysisError(f"anchor vanished: NameSanitizer.{fname}")
+        if not refs[fname]:
+            # the property speaks about identifiers the generator derives; a function nothing in the package refers to derives
+            # none.  Recorded (not silently skipped); the shape rule arms by itself as soon as a reference appears.
+            rep.ok("R20.1", f"{utils.relpath}:NameSanitizer.{fname} ({role})",
+                   f"not armed: no reference to `{fname}` in any of the {len(repo.modules)} modules of the package, so no emitted identifier derives from it",
+                   fn.loc())
+            rep.count(f"R20.1:unreferenced:{fname}", 0)
+            continue
+        rep.count(f"R20.1:references:{fname}", len(refs[fname]))
         n_fn += 1
         _shape_rule(fn, role, rep)
     rep.count("R20.1:functions_interpreted", n_fn)
+    rep.require(n_fn >= 3, f"R20.1: only {n_fn} referenced name sanitizers (floor 3: class, module, method)")
 
     # every other NameSanitizer function that returns a str and is used for identifiers must be in the table
     for q, m in ns.methods.items():
